@@ -1,7 +1,7 @@
 (** Dispatch2.v — entry points of the models added after Dispatch.v (DER/token keys, hashes, key blinding, ...).
     [dispatch2] is what the OCaml runner calls; unknown names fall through to [dispatch]. *)
 From Coq Require Import Strings.String.
-From PatVerif Require Import Base.GoSem Model.Dispatch Model.TokenKey Model.Codecs Model.Derive Model.Ed25519 Model.TokenVerify Model.Ecdsa Model.BatchIssuer Base.Mem.
+From PatVerif Require Import Base.GoSem Model.Dispatch Model.TokenKey Model.Codecs Model.Derive Model.Ed25519 Model.TokenVerify Model.Ecdsa Model.BatchIssuer Base.Mem Base.Conc.
 Open Scope N_scope.
 
 Definition out_z (z : Z) : list (list byte) :=
@@ -137,6 +137,21 @@ Definition dispatch_mem (name : list byte) (a : list (list byte)) : option (list
     Some [region h' 0; view h' t]
   else None.
 
+(** conc_run: each argument is one scheduled action: thread id, kind (0 read, 1 write, 2 once), location, value.
+    Answer: per step the observation (00 = none | 01 value), then the final contents of locations 0..7. *)
+Definition act_of (b : list byte) : nat * act :=
+  let t := N.to_nat (be_dec_h (firstn 1 b)) in
+  let k := be_dec_h (firstn 1 (skipn 1 b)) in
+  let l := N.to_nat (be_dec_h (firstn 1 (skipn 2 b))) in
+  let v := be_dec_h (skipn 3 b) in
+  (t, if k =? 0 then Rd l else if k =? 1 then Wr l v else Base.Conc.Once l v).
+Definition show_obs (o : option N) : list byte := match o with None => [x00] | Some v => x01 :: be_enc 2 v end.
+Definition dispatch_conc (name : list byte) (a : list (list byte)) : option (list (list byte)) :=
+  if is name "conc_run" then
+    let '(hf, obs) := Base.Conc.run (fun _ => None) (map act_of a) in
+    Some (map (fun p => show_obs (snd p)) obs ++ map (fun l => show_obs (hf l)) (seq 0 8))
+  else None.
+
 Definition dispatch2 (name : list byte) (a : list (list byte)) : list (list byte) :=
   match dispatch_tokenkey name a with Some r => r | None =>
   match dispatch_derive name a with Some r => r | None =>
@@ -144,4 +159,5 @@ Definition dispatch2 (name : list byte) (a : list (list byte)) : list (list byte
   match dispatch_verify name a with Some r => r | None =>
   match dispatch_ecdsa name a with Some r => r | None =>
   match dispatch_batch name a with Some r => r | None =>
-  match dispatch_mem name a with Some r => r | None => dispatch name a end end end end end end end.
+  match dispatch_mem name a with Some r => r | None =>
+  match dispatch_conc name a with Some r => r | None => dispatch name a end end end end end end end end.
